@@ -413,7 +413,9 @@ SRV_RULE = ("server scripts over ops {P poll Requests, R request, X cancel, E eo
             "request, Z drop channel, A advance clock}; cfg: limit none/0..3, response buffer 1..3, transport "
             "capacity 0..3 coupled/independent; 6..60 ops (C11 bias: a sixth of the scripts 300..420 ops); generated "
             "WHILE RUNNING the real code so that the next op can look at the real in-flight count, handler phases, "
-            "clock and sink state; all randomness from one splitmix64 stream; distinct = distinct script text; ")
+            "clock and sink state; the limiter is built both ways tarpc offers: Channel::max_concurrent_requests(L) for even "
+            "response buffers, the Incoming adapter max_concurrent_requests_per_channel(L) (MaxRequestsPerChannel) for odd "
+            "ones; all randomness from one splitmix64 stream; distinct = distinct script text; ")
 
 
 def server_part(pid, chk, bias, nontrivial, rule_tail, quick=450, thorough=16000, name="server", **extra):
@@ -615,7 +617,9 @@ EXEC_PART = {
     "sweeps": [[]],
     "nontrivial": _tags("polled-after-error"),
     "rule": "execute() scripts: the harness builds the real BaseChannel [-> max_concurrent_requests(L)] over the "
-            "scripted transport, wraps it in a forwarding decorator Channel that only notes gauges / the request or "
+            "scripted transport (for odd transport capacities behind TrackedChannel, the decorator handed out by "
+            "Incoming::max_channels_per_key, whose Stream/Sink/Channel pass-throughs must be transparent), wraps it in a "
+            "forwarding decorator Channel that only notes gauges / the request or "
             "error that came back (execute() consumes the channel), and calls the REAL Channel::execute(serve) = "
             "Requests::execute = take_while(is_ok).filter_map(ok).map(execute) with script-controlled handler "
             "futures; ops as the server scripts with P = poll the execute-stream, H<k> = poll the execute() future "
